@@ -142,7 +142,7 @@ fn k_in_2_never_change_write_panics() {
     std::mem::forget(ing);
 }
 
-//@off(pending-measurement) id=K-IN-3 kind=B bound=one-IndexSet-insert props=C01,C02,C03 timeout=900 fn=IngredientImpl::field,ZalsaLocal::report_tracked_read_simple,IngredientIndex::successor
+//@ob id=K-IN-3 kind=B bound=one-IndexSet-insert props=C01,C02,C03 timeout=900 fn=IngredientImpl::field,ZalsaLocal::report_tracked_read_simple,IngredientIndex::successor
 //@ pre: an input whose two fields have any (revision, durability); an active query frame; read field fi
 //@ post: the frame's stamp becomes (min(NEVER_CHANGE, durability[fi]), max(start, revision[fi])) - i.e. exactly the stamp of *that* field, not the other; the returned fields are the stored ones
 #[cfg_attr(kani, kani::proof)]
